@@ -52,6 +52,13 @@ func runC20(r *RunCtx) error {
 		for j := range segs {
 			segs[j] = genSegment(p)
 		}
+		if i%16 == 5 { // an entry directly below the top folder with the empty name: "/x", "/x/"
+			segs = []string{"", genSegment(p)}
+			if segs[1] == "" || strings.Contains(segs[1], "/") {
+				segs[1] = "x"
+			}
+			k = 2
+		}
 		path := strings.Join(segs, "/")
 		if p.Chance(1, 5) {
 			path += "/"
@@ -116,7 +123,8 @@ func runC20(r *RunCtx) error {
 		hp, hc := fttypes.MerkleHelper(path)
 		r.Case("fn", fmt.Sprintf("Helper %s %s %s", cStr(path), cStr(hp), cStr(hc)), map[string]interface{}{"fn": "MerkleHelper", "path_hex": hex.EncodeToString([]byte(path)), "parent": hp, "child": hc})
 		r.Count("mh:"+path, k >= 2)
-		if k >= 2 && segs[k-1] != "" && segs[k-2] != "" && !strings.Contains(segs[k-1], "/") && !strings.HasSuffix(segs[k-2], "/") {
+		// (the parent may be the empty top folder — "/x" — but must not itself end in a slash)
+		if k >= 2 && segs[k-1] != "" && (segs[k-2] != "" || k == 2) && !strings.Contains(segs[k-1], "/") && !strings.HasSuffix(segs[k-2], "/") && !strings.Contains(strings.Join(segs[:k-1], "/"), "//") {
 			if fttypes.AddToMerkle(hp, hc) != got {
 				r.Finding("C20/client-split", "AddToMerkle(MerkleHelper(path)) != MerklePath(path): the address a client posts to is not the plain path's address", map[string]interface{}{"path_hex": hex.EncodeToString([]byte(path)), "path": path})
 			}
